@@ -125,7 +125,7 @@ fn main() {
     // Panics of the code under test are data (caught and logged); keep stderr quiet.
     std::panic::set_hook(Box::new(|info| {
         let s = info.to_string();
-        if s.contains("harness:") {
+        if s.contains("harness:") || std::env::var_os("FG_PANICS").is_some() {
             eprintln!("{s}");
         }
     }));
